@@ -58,6 +58,18 @@ enum Call {
     DropR(usize),
     ConvR(usize),
     CloseR(usize),
+    /// timed calls with a deadline that cannot expire (0: one hour, 1: `Duration::MAX`), offered only where the
+    /// reference channel completes the call at once (kept at the end of the alphabet: older replays stay valid)
+    SendTBig(usize, u8),
+    SendOptTBig(usize, u8),
+    RecvTBig(usize, u8),
+}
+fn big(k: u8) -> Duration {
+    if k == 0 {
+        Duration::from_secs(3600)
+    } else {
+        Duration::MAX
+    }
 }
 impl Call {
     fn kind(&self) -> u64 {
@@ -309,6 +321,25 @@ impl<T: Payload> World<T> {
                 c.push(Call::StreamDrop(f));
             }
         }
+        for &i in &ls {
+            let mut mm = self.m.clone();
+            let mut d = vec![];
+            if mm.send(0, 0, true, &mut d) != SendOut::Blocked {
+                for k in 0..2 {
+                    c.push(Call::SendTBig(i, k));
+                    c.push(Call::SendOptTBig(i, k));
+                }
+            }
+        }
+        for &i in &lr {
+            let mut mm = self.m.clone();
+            let mut d = vec![];
+            if mm.recv(0, true, &mut d) != RecvOut::Blocked {
+                for k in 0..2 {
+                    c.push(Call::RecvTBig(i, k));
+                }
+            }
+        }
         c
     }
 
@@ -372,9 +403,9 @@ impl<T: Payload> World<T> {
         let before = self.wsnap();
         let mut done = vec![];
         match c {
-            Call::Send(i) | Call::SendT0(i) | Call::TrySend(i) | Call::TrySendRt(i) => {
+            Call::Send(i) | Call::SendT0(i) | Call::TrySend(i) | Call::TrySendRt(i) | Call::SendTBig(i, _) => {
                 let (v, tag) = self.mk();
-                let block = matches!(c, Call::Send(_) | Call::SendT0(_));
+                let block = matches!(c, Call::Send(_) | Call::SendT0(_) | Call::SendTBig(..));
                 let id = self.op();
                 let mut out = self.m.send(id, tag, block, &mut done);
                 if out == SendOut::Blocked {
@@ -391,6 +422,10 @@ impl<T: Payload> World<T> {
                         Err(e) => se(&e).into(),
                     },
                     Call::SendT0(_) => match guarded(|| h.sy().send_timeout(v, Duration::ZERO)).map_err(|_| unexpected_panic())? {
+                        Ok(()) => "Ok".into(),
+                        Err(e) => set(&e).into(),
+                    },
+                    Call::SendTBig(_, k) => match guarded(|| h.sy().send_timeout(v, big(k))).map_err(|_| unexpected_panic())? {
                         Ok(()) => "Ok".into(),
                         Err(e) => set(&e).into(),
                     },
@@ -425,9 +460,9 @@ impl<T: Payload> World<T> {
                     return Err(format!("{}: returned {} but the reference channel returns {}", what, got, want));
                 }
             }
-            Call::SendOptT0(i) | Call::TrySendOpt(i) | Call::TrySendOptRt(i) => {
+            Call::SendOptT0(i) | Call::TrySendOpt(i) | Call::TrySendOptRt(i) | Call::SendOptTBig(i, _) => {
                 let (v, tag) = self.mk();
-                let block = matches!(c, Call::SendOptT0(_));
+                let block = matches!(c, Call::SendOptT0(_) | Call::SendOptTBig(..));
                 let id = self.op();
                 let mut out = self.m.send(id, tag, block, &mut done);
                 if out == SendOut::Blocked {
@@ -439,6 +474,10 @@ impl<T: Payload> World<T> {
                 let mut opt = Some(v);
                 let got: String = match c {
                     Call::SendOptT0(_) => match guarded(|| h.sy().send_option_timeout(&mut opt, Duration::ZERO)).map_err(|_| unexpected_panic())? {
+                        Ok(()) => "Ok".into(),
+                        Err(e) => set(&e).into(),
+                    },
+                    Call::SendOptTBig(_, k) => match guarded(|| h.sy().send_option_timeout(&mut opt, big(k))).map_err(|_| unexpected_panic())? {
                         Ok(()) => "Ok".into(),
                         Err(e) => set(&e).into(),
                     },
@@ -646,8 +685,8 @@ impl<T: Payload> World<T> {
                     return Err(format!("{}: close returned {} but the reference channel returns {}", what, got, want));
                 }
             }
-            Call::Recv(i) | Call::IterNext(i) | Call::RecvT0(i) | Call::TryRecv(i) | Call::TryRecvRt(i) => {
-                let block = matches!(c, Call::Recv(_) | Call::IterNext(_) | Call::RecvT0(_));
+            Call::Recv(i) | Call::IterNext(i) | Call::RecvT0(i) | Call::TryRecv(i) | Call::TryRecvRt(i) | Call::RecvTBig(i, _) => {
+                let block = matches!(c, Call::Recv(_) | Call::IterNext(_) | Call::RecvT0(_) | Call::RecvTBig(..));
                 let id = self.op();
                 let mut out = self.m.recv(id, block, &mut done);
                 if out == RecvOut::Blocked {
@@ -671,6 +710,7 @@ impl<T: Payload> World<T> {
                         }
                     }
                     Call::RecvT0(_) => guarded(|| self.rh(i).sy().recv_timeout(Duration::ZERO).map(Some).map_err(|e| ret(&e))),
+                    Call::RecvTBig(_, k) => guarded(|| self.rh(i).sy().recv_timeout(big(k)).map(Some).map_err(|e| ret(&e))),
                     Call::TryRecv(_) => {
                         if na { guarded(|| self.rh(i).asy().try_recv().map_err(|e| re(&e))) } else { guarded(|| self.rh(i).sy().try_recv().map_err(|e| re(&e))) }
                     }
